@@ -857,6 +857,20 @@ def _reads_assigned(fn, init, lo=None, hi=None):
     return False
 
 
+NO_INLINE_NAMES = set()      # locals a rule wants kept as names (it supplies their values itself); set around a _tnorm call
+
+
+def tnorm_keeping(fn, n, names):
+    """_tnorm, but the given locals are left as names"""
+    global NO_INLINE_NAMES
+    old = NO_INLINE_NAMES
+    NO_INLINE_NAMES = set(names)
+    try:
+        return _tnorm(fn, n)
+    finally:
+        NO_INLINE_NAMES = old
+
+
 def _tnorm(fn, n, depth=0, hi=None):
     if isinstance(n, list):
         return [_tnorm(fn, x, depth, hi) for x in n]
@@ -871,7 +885,7 @@ def _tnorm(fn, n, depth=0, hi=None):
             env = {nm: _tnorm(fn, a, depth + 1, hi) for (nm, _), a in zip(g.params, n["args"])}
             body = _tnorm(g, g.body["stmts"][0]["e"], depth + 1)
             return _subst(body, env)
-    if k == "path" and fn is not None and "::" not in n["path"] and depth < 8:
+    if k == "path" and fn is not None and "::" not in n["path"] and depth < 8 and n["path"] not in NO_INLINE_NAMES:
         try:
             b = binding_before(fn, n["path"], n)
         except Exception:
@@ -1123,4 +1137,41 @@ def _replace_child(par, old, new):
                 if vv is old:
                     v[kk] = new
                     return True
+    return False
+
+
+class LoopView(dict):
+    """a `for PAT in ITER { BODY }` loop or its iterator spelling `ITER.map(|PAT| BODY)` / for_each / try_for_each / filter_map / flat_map,
+    presented alike: ["iter"], ["pat"], ["body"], .node (the for node or the closure), .k == "for"."""
+    @property
+    def k(self):
+        return "for"
+
+
+def iter_loops(root):
+    """every per-item loop under root: `for` loops and closures handed to map/for_each/try_for_each/filter_map/flat_map"""
+    out = []
+    for n in walk_no_nested_fn(root):
+        if n.k == "for":
+            v = LoopView(iter=n["iter"], pat=n["pat"], body=n["body"])
+            v.node, v.order, v.parent = n, n.order, n.parent
+            out.append(v)
+        elif n.k == "mcall" and n["method"] in ("map", "for_each", "try_for_each", "filter_map", "flat_map") and len(n["args"]) == 1:
+            c = strip(n["args"][0])
+            if isinstance(c, Node) and c.k == "closure" and len(c["inputs"]) == 1:
+                v = LoopView(iter=n["recv"], pat=c["inputs"][0], body=c["body"])
+                v.node, v.order, v.parent = c, c.order, n
+                out.append(v)
+    return out
+
+
+def resolves_to(fn, e, target, depth=0):
+    """expression e is `target` itself or a local bound (by one immutable `let`) to it, transitively"""
+    e = strip(e)
+    if e is target:
+        return True
+    if depth < 6 and isinstance(e, Node) and e.k == "path" and "::" not in e["path"]:
+        b = binding_before(fn, e["path"], e)
+        if b is not None and b[0] == "let" and b[-1] == () and b[1].get("init") is not None and not b[1]["pat"].get("mut"):
+            return resolves_to(fn, b[1]["init"], target, depth + 1)
     return False
